@@ -37,7 +37,7 @@ KEY_ALPHA = {
     "f8z": [None, "-0.0", "0.0", "9007199254740992.0"],
     "i8": [0, 1, 2, 9007199254740993],
     "b1": [False, True],
-    "str": [None, "a", "b", V.LONG_A],
+    "str": [None, "a", "A", "e\u0301"],   # 'A' folds to 'a'; 'e'+combining acute is not the letter U+00E9 (no normalisation)
     "U": [None, "a", "b", "ab"],
     "D": [None, "1970-01-01", "2020-02-29", "1969-12-31"],
     "us": [None, "1970-01-01T00:00:00", "2020-02-29T23:59:59.999999", "1969-12-31T23:59:59"],
